@@ -37,6 +37,8 @@ def extra_for(fname):
 
 def run(chk):
     chk.level = "proof"
+    from props import backend_conformance
+    backend_conformance.run(chk, "C03", names=("block_diag", "kron", "concat", "promote_types", "conj", "cast"))
     chk.assume("simplifications (flattening nested sums/products, identity elimination, scalar merging, Diagonal (x) Diagonal fusion) are rules of "
                "dot/add/mul/kron and must meet the same M(r) = ... ensures: that is 'never change the represented matrix'")
     dts = [np.float64, np.complex128]
